@@ -50,7 +50,10 @@ def htmlEscapeUrl : Str → Str := mapChars Gen.Chains.htmlEscapeUrl pctUtf8
 /-- `LaTeXRenderer.render_raw_text(token)` with `escape=True`. -/
 def latexRawText : Str → Str := mapChars Gen.Chains.latexRawText ident
 
+/-- `quote(c)` followed by LaTeX-escaping of '%': every UTF-8 byte as `\%XX`. -/
+def latexPctUtf8 (c : Char) : Str := (utf8 c.toNat).flatMap (fun b => '\\' :: pctByte b)
+
 /-- `LaTeXRenderer.escape_url`. -/
-def latexEscapeUrl : Str → Str := mapChars Gen.Chains.latexEscapeUrl pctUtf8
+def latexEscapeUrl : Str → Str := mapChars Gen.Chains.latexEscapeUrl latexPctUtf8
 
 end Mistletoe.Escape
